@@ -21,6 +21,26 @@ HERE = os.path.dirname(os.path.abspath(__file__))
 OUT = os.environ.get('PYTRANS6_OUT', os.path.join(HERE, '..', 'coq', 'AioGen.v'))
 SRC = 'hpfeeds/asyncio/client.py'
 PROTO = 'hpfeeds/asyncio/protocol.py'
+FLAVOURS = {
+    'aio': dict(src='hpfeeds/asyncio/client.py', proto='hpfeeds/asyncio/protocol.py', session='ClientSession', prefix='',
+                owner=('client',), ready='connection_ready', lost='connection_lost', on_publish='on_publish',
+                fire=('when_connected', 'set_result'), put='put_nowait'),
+    'tw': dict(src='hpfeeds/twisted/service.py', proto='hpfeeds/twisted/protocol.py', session='ClientSessionService', prefix='Tw',
+               owner=('factory', 'service'), ready='connectionReady', lost='connectionLost', on_publish='onPublish',
+               fire=('whenConnected', 'callback'), put='put'),
+}
+FL = FLAVOURS['aio']
+
+
+def is_owner(e):
+    """self.client (asyncio) / self.factory.service (Twisted): the session object, seen from its protocol"""
+    for a in reversed(FL['owner']):
+        if not is_attr(e, a):
+            return False
+        e = e.value
+    return is_name(e, 'self')
+
+
 FRAMES = {'subscribe': ('FSub', 1, 'msgsubscribe'), 'unsubscribe': ('FUnsub', 1, 'msgunsubscribe'), 'publish': ('FPubl', 2, 'msgpublish')}
 
 
@@ -28,10 +48,13 @@ AIO_PRIMS = '''(* session.protocol = p / session.transport = None *)
 Definition set_cur (c : option nat) (s : asess) : asess :=
   mkas (wanted s) (pc s) c (tr s) (conns s) (closing s) (wc_done s) (wcl_done s) (queue s) (delivered s) (waiting s)
        (recvd s) (attempts s) (pend s) (outcome s) (cancel_req s) (cst s) (ready s) (raised s).
+Definition set_wc_done (b : bool) (s : asess) : asess :=
+  mkas (wanted s) (pc s) (cur s) (tr s) (conns s) (closing s) b (wcl_done s) (queue s) (delivered s) (waiting s)
+       (recvd s) (attempts s) (pend s) (outcome s) (cancel_req s) (cst s) (ready s) (raised s).
 Definition set_tr (c : option nat) (s : asess) : asess :=
   mkas (wanted s) (pc s) (cur s) c (conns s) (closing s) (wc_done s) (wcl_done s) (queue s) (delivered s) (waiting s)
        (recvd s) (attempts s) (pend s) (outcome s) (cancel_req s) (cst s) (ready s) (raised s).
-(* Future.set_result on a future that is already done raises InvalidStateError *)
+(* Future.set_result on a future that is already done raises InvalidStateError; Deferred.callback on a fired one AlreadyCalledError *)
 Definition set_result_connected (s : asess) : asess * bool :=
   if wc_done s then (s, true)
   else (mkas (wanted s) (pc s) (cur s) (tr s) (conns s) (closing s) true (wcl_done s) (queue s) (delivered s) (waiting s)
@@ -68,7 +91,7 @@ def self_attr(e, a):
 def check_protocol_writers():
     """BaseProtocol.subscribe / unsubscribe / publish must be self.transport.write(msgX(<the parameters>)), not overridden by
     ClientProtocol or _Protocol"""
-    t = ast.parse(open(os.path.join(REPO, PROTO)).read())
+    t = ast.parse(open(os.path.join(REPO, FL['proto'])).read())
     ok = set()
     for s in t.body:
         if isinstance(s, ast.ClassDef) and s.name in ('BaseProtocol', 'ClientProtocol'):
@@ -84,7 +107,7 @@ def check_protocol_writers():
                             and [a.id for a in c.args[0].args if is_name(a)] == params and not m.decorator_list):
                         ok.add(m.name)
     if ok != set(FRAMES):
-        raise Unsupported(PROTO, 'BaseProtocol writers are not transport.write(msgX(..)): %s' % sorted(set(FRAMES) - ok))
+        raise Unsupported(FL['proto'], 'BaseProtocol writers are not transport.write(msgX(..)): %s' % sorted(set(FRAMES) - ok))
 
 
 class Fn:
@@ -128,8 +151,8 @@ class Fn:
                     raise Unsupported(s, 'arguments of protocol.%s' % f.attr)
                 return then('(wrk ident secret %s (%s %s) s)' % (k, con, ' '.join(a.id for a in c.args[1:])))
             # self.client.read_queue.put_nowait((ident, chan, data))
-            if (is_attr(f, 'put_nowait') and is_attr(f.value, 'read_queue') and is_attr(f.value.value, 'client')
-                    and is_name(f.value.value.value, 'self') and len(c.args) == 1 and isinstance(c.args[0], ast.Tuple)
+            if (is_attr(f, FL['put']) and is_attr(f.value, 'read_queue') and is_owner(f.value.value)
+                    and len(c.args) == 1 and isinstance(c.args[0], ast.Tuple)
                     and len(c.args[0].elts) == 3 and all(is_name(a) and a.id in self.params for a in c.args[0].elts)):
                 a, b, d = [x.id for x in c.args[0].elts]
                 return then('(enqueue_msg (%s, %s, %s) s)' % (a, b, d))
@@ -155,29 +178,41 @@ class ProtoFn:
         def thenx(term):                 # a statement that may raise: (state, raised?)
             return "(let '(s, t_exn) := %s in if t_exn then (s, true) else %s)" % (term, r)
         # self.client.protocol = self / self.client.transport = None
-        if isinstance(s, ast.Assign) and len(s.targets) == 1 and is_attr(s.targets[0]) and is_attr(s.targets[0].value, 'client') \
-                and is_name(s.targets[0].value.value, 'self'):
+        if isinstance(s, ast.Assign) and len(s.targets) == 1 and is_attr(s.targets[0]) and is_owner(s.targets[0].value):
             a = s.targets[0].attr
             if a == 'protocol' and is_name(s.value, 'self'):
                 return then('(set_cur (Some t_k) s)')
-            if a == 'transport' and isinstance(s.value, ast.Constant) and s.value.value is None:
+            if a == 'protocol' and isinstance(s.value, ast.Constant) and s.value.value is None and FL['prefix'] == 'Tw':
+                return then('(set_cur None s)')
+            if a == 'transport' and isinstance(s.value, ast.Constant) and s.value.value is None and FL['prefix'] == '':
                 return then('(set_tr None s)')
-            raise Unsupported(s, 'assignment to self.client.%s' % a)
+            # Twisted: service.whenConnected = defer.Deferred()   (a fresh, unfired Deferred)
+            if (a == 'whenConnected' and FL['prefix'] == 'Tw' and isinstance(s.value, ast.Call) and is_attr(s.value.func, 'Deferred')
+                    and is_name(s.value.func.value, 'defer') and not s.value.args and not s.value.keywords):
+                return then('(set_wc_done false s)')
+            raise Unsupported(s, 'assignment to the session attribute %s' % a)
+        # Twisted: self.factory = None (the protocol forgets its factory; not modelled: nothing reads it afterwards)
+        if (FL['prefix'] == 'Tw' and isinstance(s, ast.Assign) and len(s.targets) == 1 and self_attr(s.targets[0], 'factory')
+                and isinstance(s.value, ast.Constant) and s.value.value is None and not rest):
+            return r
         # for topic in self.client.subscriptions: self.subscribe(self.ident, topic)
-        if (isinstance(s, ast.For) and not s.orelse and is_name(s.target) and is_attr(s.iter, 'subscriptions') and is_attr(s.iter.value, 'client')
-                and is_name(s.iter.value.value, 'self') and len(s.body) == 1 and isinstance(s.body[0], ast.Expr)
+        if (isinstance(s, ast.For) and not s.orelse and is_name(s.target) and is_attr(s.iter, 'subscriptions') and is_owner(s.iter.value)
+                and len(s.body) == 1 and isinstance(s.body[0], ast.Expr)
                 and isinstance(s.body[0].value, ast.Call)):
             c = s.body[0].value
-            if (self_attr(c.func, 'subscribe') and len(c.args) == 2 and self_attr(c.args[0], 'ident') and is_name(c.args[1], s.target.id)
+            if (self_attr(c.func, 'subscribe') and len(c.args) == 2 and is_name(c.args[1], s.target.id)
+                    and (self_attr(c.args[0], 'ident') or (is_attr(c.args[0], 'ident') and is_owner(c.args[0].value)))
                     and not c.keywords):
                 return then('(fold_left (fun t_s %s => wrk ident secret t_k (FSub %s) t_s) (wanted s) s)' % (s.target.id, s.target.id))
             raise Unsupported(s, 'loop body')
         # self.client.when_connected.set_result(None) / self.client.when_closed.set_result(None)
-        if isinstance(s, ast.Expr) and isinstance(s.value, ast.Call) and is_attr(s.value.func, 'set_result') and not s.value.keywords:
+        if isinstance(s, ast.Expr) and isinstance(s.value, ast.Call) and is_attr(s.value.func, FL['fire'][1]) and not s.value.keywords:
             f = s.value.func.value
-            if (is_attr(f) and f.attr in ('when_connected', 'when_closed') and is_attr(f.value, 'client') and is_name(f.value.value, 'self')
+            if (is_attr(f) and f.attr in (FL['fire'][0], 'when_closed') and is_owner(f.value)
                     and len(s.value.args) == 1 and isinstance(s.value.args[0], ast.Constant) and s.value.args[0].value is None):
-                return thenx('(%s s)' % ('set_result_connected' if f.attr == 'when_connected' else 'set_result_closed'))
+                if f.attr == 'when_closed' and FL['prefix'] == 'Tw':
+                    raise Unsupported(s, 'when_closed in the Twisted service')
+                return thenx('(%s s)' % ('set_result_connected' if f.attr == FL['fire'][0] else 'set_result_closed'))
         raise Unsupported(s, 'statement in a _Protocol callback')
 
 
@@ -194,39 +229,48 @@ def method(tree, cls, name, nparams):
     return params, fds[0].body
 
 
+def translate_flavour(name):
+    global FL
+    FL = FLAVOURS[name]
+    check_protocol_writers()
+    tree = ast.parse(open(os.path.join(REPO, FL['src'])).read())
+    for s in tree.body:
+        if isinstance(s, ast.ClassDef) and s.name == '_Protocol':
+            if [b.id for b in s.bases if is_name(b)] != ['ClientProtocol']:
+                raise Unsupported(s, '_Protocol bases')
+            for m in s.body:
+                if isinstance(m, ast.FunctionDef) and m.name in FRAMES:
+                    raise Unsupported(m, '_Protocol overrides %s' % m.name)
+    defs = []
+    px = FL['prefix']
+    for cls, name2, n in ((FL['session'], 'subscribe', 1), (FL['session'], 'unsubscribe', 1), (FL['session'], 'publish', 2),
+                          ('_Protocol', FL['on_publish'], 3)):
+        params, body = method(tree, cls, name2, n)
+        term = Fn(params).stmts(body, None)
+        cname = ('ClientSession' if cls != '_Protocol' else 'Protocol') + '_' + {'onPublish': 'on_publish'}.get(name2, name2)
+        defs.append('(* %s: %s.%s *)\nDefinition %s%s %s(s : asess) : asess :=\n  %s.'
+                    % (FL['src'], cls, name2, px, cname, ''.join('(%s : bytes) ' % p for p in params), term))
+    for name2, n, cn in ((FL['ready'], 0, 'connection_ready'), (FL['lost'], 1, 'connection_lost')):
+        params, body = method(tree, '_Protocol', name2, n)
+        term = ProtoFn(params).stmts(body)
+        defs.append('(* %s: _Protocol.%s (self = the protocol object of connection t_k; the bool: an exception escaped) *)\n'
+                    'Definition %sProtocol_%s (t_k : nat) (s : asess) : asess * bool :=\n  %s.' % (FL['src'], name2, px, cn, term))
+    return defs
+
+
 def main():
     try:
-        check_protocol_writers()
-        tree = ast.parse(open(os.path.join(REPO, SRC)).read())
-        for s in tree.body:
-            if isinstance(s, ast.ClassDef) and s.name == '_Protocol':
-                if [b.id for b in s.bases if is_name(b)] != ['ClientProtocol']:
-                    raise Unsupported(s, '_Protocol bases')
-                for m in s.body:
-                    if isinstance(m, ast.FunctionDef) and m.name in FRAMES:
-                        raise Unsupported(m, '_Protocol overrides %s' % m.name)
-        defs = []
-        for cls, name, n in (('ClientSession', 'subscribe', 1), ('ClientSession', 'unsubscribe', 1), ('ClientSession', 'publish', 2),
-                             ('_Protocol', 'on_publish', 3)):
-            params, body = method(tree, cls, name, n)
-            term = Fn(params).stmts(body, None)
-            defs.append('(* %s: %s.%s *)\nDefinition %s_%s %s(s : asess) : asess :=\n  %s.'
-                        % (SRC, cls, name, cls.strip('_'), name, ''.join('(%s : bytes) ' % p for p in params), term))
-        for name, n in (('connection_ready', 0), ('connection_lost', 1)):
-            params, body = method(tree, '_Protocol', name, n)
-            term = ProtoFn(params).stmts(body)
-            defs.append('(* %s: _Protocol.%s (self = the protocol object of connection t_k; the bool: an exception escaped) *)\n'
-                        'Definition Protocol_%s (t_k : nat) (s : asess) : asess * bool :=\n  %s.' % (SRC, name, name, term))
-        txt = ('(* GENERATED by harness/pytrans6.py from %s - do not edit *)\n'
+        defs = translate_flavour('aio') + translate_flavour('tw')
+        txt = ('(* GENERATED by harness/pytrans6.py from %s and %s - do not edit *)\n'
                'From Coq Require Import ZArith List Bool.\nFrom Coq Require Import Strings.Byte.\n'
                'From HP Require Import Bytes AioSession.\nImport ListNotations.\n\n'
                'Section Gen.\nVariable ident secret : bytes.\n\n'
-               '(* read_queue.put_nowait(m): the message joins the queue (and the ghost list of everything received) *)\n'
+               '(* read_queue.put_nowait(m) / DeferredQueue.put(m): the message joins the queue (and the ghost list of everything received) *)\n'
                'Definition enqueue_msg (m : msg) (s : asess) : asess :=\n'
                '  mkas (wanted s) (pc s) (cur s) (tr s) (conns s) (closing s) (wc_done s) (wcl_done s)\n'
                '       (queue s ++ [m]) (delivered s) (waiting s) (recvd s ++ [m]) (attempts s) (pend s) (outcome s)\n'
                '       (cancel_req s) (cst s) (ready s) (raised s).\n\n'
-               % os.path.join(REPO, SRC)) + AIO_PRIMS + '\n\n'.join(defs) + '\n\nEnd Gen.\n'
+               % (os.path.join(REPO, FLAVOURS['aio']['src']), os.path.join(REPO, FLAVOURS['tw']['src']))) + AIO_PRIMS + '\n\n'.join(defs) + '\n\nEnd Gen.\n'
     except (Unsupported, OSError, SyntaxError) as e:
         sys.stderr.write('pytrans6: cannot translate: %s\n' % e)
         return 2
